@@ -8,6 +8,7 @@ continues; every later output and the complete final state must equal the uninte
 
 from __future__ import annotations
 
+import copy
 import io
 
 import torch
@@ -30,6 +31,7 @@ def generate(ctx):
         kind = ["serial", "biclique", "recurrent"][i % 3]
         trainer = rng.choice(TRAINERS)
         delay = rng.choice([None, 2]) if trainer not in tr.NEEDS_DELAY else 2
+        target = ["fresh", "prerun", "clone"][(i // 3) % 3]
         yield {"kind": kind, "dt": rng.choice([1.0, 0.5]), "B": rng.randint(1, 2), "seed": rng.randrange(1 << 30),
                "T": rng.randint(8, 14 if th else 10), "neuron": rng.choice(fac.NEURONS), "neuron2": rng.choice(fac.NEURONS),
                "syn": rng.choice(fac.SYNAPSES), "delay": delay, "bias": rng.random() < 0.4, "p": rng.choice([0.4, 0.7]),
@@ -38,8 +40,8 @@ def generate(ctx):
                "trainable_feedback": True, "transforms": False, "capture": False,
                "trainer": trainer, "signs": rng.randrange(4), "trace_mode": rng.choice(["cumulative", "nearest"]),
                "delayed": bool(delay) and rng.random() < 0.5, "inplace": rng.random() < 0.5,
-               "reducer": rng.choice(REDUCERS), "reducer_duration": rng.choice([0.0, 3.0]), "classifier": rng.random() < 0.5,
-               "target": rng.choice(["fresh", "prerun"]), "reducer_clear_at": rng.choice([None, 2, 4])}
+               "reducer": rng.choice(REDUCERS), "reducer_duration": rng.choice([0.0, 3.0]), "classifier": target == "clone" or rng.random() < 0.5,
+               "target": target, "reducer_clear_at": rng.choice([None, 2, 4])}
 
 
 class System:
@@ -173,6 +175,12 @@ def run_case(ctx, desc):
             nwarm = 1 if desc["target"] == "fresh" else 3
             for j in range(nwarm):
                 dst.step(other[j], j)        # warm: shapes exist; state is arbitrary and must be overwritten by the load
+            if desc["target"] == "clone" and dst.classifier is not None:
+                # "another instance of the same configuration" obtained by copying a used one (copy.deepcopy of a plain
+                # buffer-only module; the template stays alive).  Modules holding RecordTensors are not cloned this way.
+                template = dst.classifier
+                dst.classifier = copy.deepcopy(template)
+                ctx.count("cloned_targets")
             dst.restore(sds)
         except Exception as e:  # noqa: BLE001
             return ctx.violation(ctx.exc_signature(e, f"checkpoint_restore.{desc['kind']}.{desc['trainer']}.{desc['reducer']}"),
